@@ -129,6 +129,8 @@ static int execute(const harness_t *h, const int *pfx, int plen, uint64_t got[MA
         pixman_image_composite32(PIXMAN_OP_OVER, sclip, NULL, d, 1, 0, 0, 0, 0, 0, DW, DH);
         pixman_image_unref(d);
     }
+    static uint32_t tile8[2 * TILE_STRIDE_WORDS], tile16[2 * TILE_STRIDE_WORDS];
+    memset(tile8, 0x5a, sizeof tile8); memset(tile16, 0xa5, sizeof tile16);
     static uint32_t acc_pix[DW * DH];
     pixman_image_t *sacc = body_make_shared_acc(acc_pix);
     {   /* first use on the main thread */
@@ -138,7 +140,7 @@ static int execute(const harness_t *h, const int *pfx, int plen, uint64_t got[MA
         pixman_image_unref(d);
     }
     NT = h->nthreads;
-    for (int t = 0; t < NT; t++) { body_setup(&ctx[t], t, shared); ctx[t].shared_grad = sgrad; ctx[t].shared_clipped = sclip; ctx[t].shared_acc = sacc; alive[t] = 1; }
+    for (int t = 0; t < NT; t++) { body_setup(&ctx[t], t, shared); ctx[t].shared_grad = sgrad; ctx[t].shared_clipped = sclip; ctx[t].shared_acc = sacc; ctx[t].tile8 = tile8; ctx[t].tile16 = tile16; ctx[t].tile_ix = t; alive[t] = 1; }
     npoints = 0; prefix = pfx; prefix_len = plen; diverged = 0; trace_hash = 0;
     for (int t = 0; t < MAXT; t++) last_range[t] = -2;
     turn = -1;
@@ -322,7 +324,7 @@ int main(int argc, char **argv)
               "function); thread exits are free switches. A case is one first deviation of one harness and the whole schedule subtree below it. states = schedules executed, "
               "transitions = executions; oracle: every thread's result digest equals its digest when run alone.";
     vf_assume("preemption at basic-block boundaries and sequentially consistent executions only; races inside a block are the free-running ThreadSanitizer pass's subject");
-    vf_assume("harnesses of 2 threads x 2 operations (all unordered pairs of 11 operation kinds, each thread in opposite order) and 3 threads x 1 operation");
+    vf_assume("harnesses of 2 threads x 2 operations (all unordered pairs of 12 operation kinds, each thread in opposite order) and 3 threads x 1 operation");
     if (n_interesting == 0) vf_cap("symbol table not available: no 'interesting' function ranges, only bound_all applies");
 
     /* Iterating the bound: the space "schedules" takes the tier's harness list at the lower bound (1 everywhere / 2 inside the dispatch functions) and is
